@@ -48,7 +48,7 @@ func (t *Text) Draw(ctx vxfw.DrawContext) (vxfw.Surface, error) {
 	var row uint16
 	for scanner.Scan() {
 		var col uint16
-		if row > ctx.Max.Height {
+		if row >= ctx.Max.Height {
 			return s, nil
 		}
 		chars := ctx.Characters(scanner.Text())
@@ -96,7 +96,7 @@ func (t *Text) drawSoftwrap(ctx vxfw.DrawContext) (vxfw.Surface, error) {
 	var row uint16
 	for scanner.Scan(ctx) {
 		var col uint16
-		if row > ctx.Max.Height {
+		if row >= ctx.Max.Height {
 			return s, nil
 		}
 		chars := ctx.Characters(scanner.Text())
